@@ -670,7 +670,10 @@ fn coq_frame(a: &Abs, i: usize) -> String {
 
 /// own JSONL reader: every line of the (possibly faulted) full sidecar as `G seq` / `B len`
 fn abstract_full(root: &Path, id: &str, a: &Abs) -> Option<Vec<(bool, u64)>> {
-    let p = target_path(root, id, Target::Full);
+    abstract_jsonl(root, id, a, Target::Full)
+}
+fn abstract_jsonl(root: &Path, id: &str, a: &Abs, t: Target) -> Option<Vec<(bool, u64)>> {
+    let p = target_path(root, id, t);
     let raw = std::fs::read(&p).ok()?;
     let mut out = vec![];
     for line in raw.split_inclusive(|b| *b == b'\n') {
@@ -1224,6 +1227,7 @@ struct Outcome {
     results: Vec<(Q, Ans, Ans)>, // (query, fast, truth)
     abs: Abs,
     full: Option<Vec<(bool, u64)>>,
+    comp: Option<Vec<(bool, u64)>>,
     coh: Coherence,
     messages: Vec<String>,
     op_errors: u64,
@@ -1236,6 +1240,7 @@ fn run_case(case: &Case) -> Outcome {
     let root = b.scratch.path().to_path_buf();
     let abs = abstract_truth(&root, &b.id);
     let full = abstract_full(&root, &b.id, &abs);
+    let comp = abstract_jsonl(&root, &b.id, &abs, Target::Comp);
     let coh = coherence(&root, &b.id, &abs);
     let secs = if case.long { 120 } else { 90 };
     let mut hung = false;
@@ -1265,7 +1270,7 @@ fn run_case(case: &Case) -> Outcome {
         hung = fast == Ans::Hang || truth == Ans::Hang;
         results.push((q.clone(), fast, truth));
     }
-    Outcome { results, abs, full, coh, messages: b.messages.clone(), op_errors: b.op_errors, writer_checks: b.writer_checks, writer_violations: b.writer_violations.clone(), ord_steps: b.ord_steps.clone() }
+    Outcome { results, abs, full, comp, coh, messages: b.messages.clone(), op_errors: b.op_errors, writer_checks: b.writer_checks, writer_violations: b.writer_violations.clone(), ord_steps: b.ord_steps.clone() }
 }
 
 fn case_json(c: &Case) -> Value {
@@ -1371,7 +1376,7 @@ fn main() {
         cases.retain(|c| seen.insert(serde_json::to_string(&case_json(c)).unwrap()));
     }
 
-    let k_term = "{| k_loops := gen_loops; k_max_keys := gen_cursor_max_keys; k_inflight_events := gen_inflight_events; k_inflight_bytes := gen_inflight_bytes |}";
+    let k_term = "{| k_loops := gen_loops; k_max_keys := gen_cursor_max_keys; k_inflight_events := gen_inflight_events; k_inflight_bytes := gen_inflight_bytes; k_ckpt_events := gen_ckpt_events; k_ckpt_bytes := gen_ckpt_bytes |}";
     let mut w = CaseWriter::new(&a.out, "Model.TailLoop Model.Cache Gen.TailLoops", &format!("(check_case {k_term})"), &format!("(model_obs {k_term})"), 60);
     let mut distinct = Distinct::default();
     let mut seen_classes: BTreeMap<String, u64> = BTreeMap::new();
@@ -1432,9 +1437,17 @@ fn main() {
                             _ => true,
                         };
                     let term = format!(
-                        "{{| c_log := {}; c_full := {}; c_query := {}; c_cmp_fast := {}; c_truth := {}; c_fast := {}; c_ord := {} |}}",
+                        "{{| c_log := {}; c_full := {}; c_query := {}; c_cmp_fast := {}; c_truth := {}; c_fast := {}; c_ord := {}; c_comp := {} |}}",
                         log_term, full_term, coq_query_term(q, which, &out.abs, &out.messages), coq_bool(cmp), coq_list_n(&truth_enc[j]), coq_list_n(&fast_enc[j]),
-                        ord_term.take().unwrap_or_else(|| "[]".into()) // the history's index write steps ride on its first case
+                        ord_term.take().unwrap_or_else(|| "[]".into()), // the history's index write steps ride on its first case
+                        // latest checkpoint through the .comp sidecar: compared when nothing can rebuild the caches before the
+                        // look-up (full sidecar exact, message counts answered by intact derived caches)
+                        if *which == "latestckpt" && out.coh.full == FileState::Exact && counts_intact {
+                            res.bump(&format!("latest_ckpt_cases_in_model:comp={:?}", out.coh.comp));
+                            format!("(Some {})", coq_opt(&out.comp, |ls| coq_list(ls, |(g, x)| if *g { format!("G {x}") } else { format!("B {x}") })))
+                        } else {
+                            "None".to_string()
+                        }
                     );
                     let id = w.push(term);
                     flagged_case_ids.push(id);
